@@ -28,7 +28,10 @@ def run_one(params: dict, chooser) -> dict:
             viols.append(Violation(clause, detail, signature=sig))
     n = params['n']
     try:
-        tw = TransferWorld(base_dir=base, horizon=60.0, chooser=chooser, lazy_exec=True)
+        # the dimension explored is the relative order of the start-up steps (executor jobs, file connections):
+        # early / reorder deviations; time-outs play no role here, so nothing is held back to a deadline
+        tw = TransferWorld(base_dir=base, horizon=60.0, chooser=chooser, lazy_exec=True, hold=False,
+                           settings={'transfers': {'report_interval': 30.0}})
         try:
             if params.get('existing'):
                 with open(os.path.join(tw.download_dir, 'song.mp3'), 'wb') as fh:
@@ -88,7 +91,7 @@ def scenarios(tier: str):
 
 def run_scenario(params: dict, tier: str) -> dict:
     bound = 1 if tier == 'quick' else 2
-    res = explore(lambda ch: run_one(params, ch), bound=bound, max_exec=3000 if tier == 'quick' else 60000)
+    res = explore(lambda ch: run_one(params, ch), bound=bound, max_exec=6000 if tier == 'quick' else 100000)
     return {'executions': res.executions, 'violations': res.violations, 'states': res.states,
             'transitions': res.transitions, 'outcomes': list(res.outcomes), 'capped': res.capped,
             'bound': res.bound_completed, 'samples': res.samples}
